@@ -901,6 +901,14 @@ impl Scenario for Hostile {
                         for (o, z) in [(u64::MAX, u64::MAX), (1 << 63, 1 << 63), (u64::MAX - n0, n0), (n0, u64::MAX - n0)] {
                             all.push(vec![(off.0, off.1, off.2, o), (sz.0, sz.1, sz.2, z)]);
                         }
+                        // a huge entry count together with a directory OFFSET that "leaves room" for that many entries
+                        // (with and without a matching size): guards that compare a claimed count with another claim
+                        for cnt in [0x1_0000u64, 1 << 20, 3_000_000, 1 << 32, 1 << 56] {
+                            for o in [cnt.saturating_mul(30), cnt.saturating_mul(46), 1 << 62, u64::MAX - n0] {
+                                all.push(vec![(nd.0, nd.1, nd.2, cnt), (n.0, n.1, n.2, cnt), (off.0, off.1, off.2, o)]);
+                                all.push(vec![(nd.0, nd.1, nd.2, cnt), (n.0, n.1, n.2, cnt), (off.0, off.1, off.2, o), (sz.0, sz.1, sz.2, cnt.saturating_mul(46))]);
+                            }
+                        }
                     }
                 }
                 if let (Some(nd), Some(n), Some(sz)) = (first("e.ndisk"), first("e.n"), first("e.cdsize")) {
